@@ -294,6 +294,13 @@ fn single_fault_plans(
     }
     let mut rot = 0usize;
     for f in 0..base.finds {
+        // the long tail of error kinds: two per index, rotating
+        for _ in 0..2 {
+            let mut p = FaultPlan::default();
+            p.finds.insert(f, Kind::TAIL[rot % Kind::TAIL.len()]);
+            rot += 1;
+            plans.push(p);
+        }
         if full {
             for k in Kind::FIND {
                 let mut p = FaultPlan::default();
@@ -311,6 +318,13 @@ fn single_fault_plans(
     }
     for h in 0..base.hits {
         let len = sizes.get(&h).copied().unwrap_or(0);
+        for _ in 0..2 {
+            let mut p = FaultPlan::default();
+            let off = if len > 0 && rot % 3 == 0 { rng.usize(len + 1) } else { 0 };
+            p.reads.insert(h, (Kind::TAIL[rot % Kind::TAIL.len()], off));
+            rot += 1;
+            plans.push(p);
+        }
         if full {
             for k in Kind::READ {
                 let mut p = FaultPlan::default();
@@ -408,6 +422,12 @@ fn enumerate_below_loader(workload: &Workload, via: Via, rng: &mut Rng, stats: &
     let full = base.opens * 5 + base.hits * 8 <= 1000;
     let mut rot = 0usize;
     for o in 0..base.opens {
+        for _ in 0..2 {
+            let mut pl = FaultPlan::default();
+            pl.opens.insert(o, Kind::TAIL[rot % Kind::TAIL.len()]);
+            rot += 1;
+            plans.push((pl, Chunking::NONE));
+        }
         if full {
             for k in Kind::OPEN {
                 let mut pl = FaultPlan::default();
@@ -570,11 +590,11 @@ impl Prop for C39 {
             let k = 2 + rng.usize(3);
             for _ in 0..k {
                 if base.finds > 0 && rng.chance(2, 3) {
-                    p.finds.insert(rng.below(base.finds), *rng.pick(&Kind::FIND));
+                    p.finds.insert(rng.below(base.finds), if rng.chance(1, 2) { *rng.pick(&Kind::FIND) } else { *rng.pick(&Kind::TAIL) });
                 } else if base.hits > 0 {
                     let h = rng.below(base.hits);
                     let len = sizes.get(&h).copied().unwrap_or(0);
-                    p.reads.insert(h, (*rng.pick(&Kind::READ), rng.usize(len + 1)));
+                    p.reads.insert(h, (if rng.chance(1, 2) { *rng.pick(&Kind::READ) } else { *rng.pick(&Kind::TAIL) }, rng.usize(len + 1)));
                 }
             }
             plans.push((p, Chunking::draw(&mut rng)));
@@ -712,7 +732,7 @@ impl Prop for C39 {
         crate::core::world_a_extra(stats)
     }
     fn rule(&self) -> String {
-        "One run = one workload (3 of 5: a generated load graph of 1-4 files using @use/@forward/@import/meta.load-css in all wrapper positions; 2 of 5: a multi-file sass-spec case from the extracted corpus) compiled fault-free (baseline, twice) and then once per fault plan: EVERY find_file call index of the baseline history x 6 error kinds; EVERY opened file (root included) x 5 error kinds at offset 0, plus an error at every line boundary (sampled to 12 for long files), at one random interior byte and instead of EOF; a quarter of these again under short reads/EINTR; 8-15 seeded multi-fault sequences; up to 3 benign-only runs. evaluations = compilations; non-trivial = a hard fault was delivered; distinct = distinct digests of (loader event history incl. fault, result).".into()
+        "One run = one workload (3 of 5: a generated load graph of 1-4 files using @use/@forward/@import/meta.load-css in all wrapper positions; 2 of 5: a multi-file sass-spec case from the extracted corpus) compiled fault-free (baseline, twice) and then once per fault plan: EVERY find_file call index of the baseline history x 6 error kinds plus two of 14 further io::ErrorKinds in rotation; EVERY opened file (root included) x 5 error kinds at offset 0 plus two of the 14, plus an error at every line boundary (sampled to 12 for long files), at one random interior byte and instead of EOF; a quarter of these again under short reads/EINTR; 8-15 seeded multi-fault sequences; up to 3 benign-only runs. evaluations = compilations; non-trivial = a hard fault was delivered; distinct = distinct digests of (loader event history incl. fault, result).".into()
     }
     fn assumptions(&self) -> Vec<String> {
         vec![
@@ -738,6 +758,12 @@ impl Prop for C39 {
         for k in Kind::OPEN {
             let s: &'static str = Box::leak(format!("fired:OpenErr:{k:?}").into_boxed_str());
             need.push(s);
+        }
+        for k in Kind::TAIL {
+            for site in ["FindErr", "ReadErr", "OpenErr"] {
+                let s: &'static str = Box::leak(format!("fired:{site}:{k:?}").into_boxed_str());
+                need.push(s);
+            }
         }
         for k in Kind::FIND {
             let s: &'static str = Box::leak(format!("fired:FindErr:{k:?}").into_boxed_str());
